@@ -179,5 +179,6 @@ def main(run: core.Run) -> None:
         for ts in DIRECT.values():
             for t in ts[:2]:
                 direct.append({'text': t, 'target': rule})
+    direct += [{'text': t} for t in docs.EXOTIC] + [{'text': t + '\n'} for t in docs.L_CLASSES] + [{'text': t} for t in docs.L_CLASSES]
     run.run_cases(run_case, direct, 'direct-parse layouts')
     run.bounds['parse_targets'] = sorted(M.TREE_MODELS)
